@@ -52,3 +52,26 @@ claim("C03", "TLC trace validation against an exact brute-force neighbour enumer
       "Radii are (k+1/2)u^2/N^2 so no atom is on the query sphere; returned Cartesian positions are pulled back with the crystal's to_fractional and "
       "projected to the grid (residual > 1e-6 rejected); functional_group_surroundings, molecular_shell and symmetry_unique_dimers share the "
       "search-box code but are not driven.")
+
+claim("C16", "TLC trace validation of the bytes written/read by the real XYZ/SDF code + exhaustive MC of the format model",
+      "MolFormats.tla specifies both formats on byte sequences (writer, fixed-column layout predicate, declarative reader and a line-by-line reader shaped like "
+      "parse_sdf_contents; XYZ grammar of spellings). MC_MolFormats exhaustively checks Read(Write(m)) = m, layout, step-wise reading and multi-record files for "
+      "1-3 atom molecules over a coordinate alphabet covering the format's range. Real molecules (1-200 atoms, every Z in 1..103, with/without perceived bonds, "
+      "bond indices >= 100, 1-4 records per file, save/load and string routes, the repository's SDF file) are written by the library; TLC checks the V2000 columns "
+      "of every line on the actual bytes, parses the text with the spec's own reader and compares with both the original molecule and the library's reader; XYZ "
+      "spellings certified by the spec's grammar are parsed by the real reader.",
+      "Coordinates are decimals built from integers (one digit group finer than the format is accepted either way); float noise allowance 1e-8 only above 8192 for XYZ.")
+claim("C05", "TLC trace validation of rho/weights against the exported interpolation table + MC of the evaluation-context state machine",
+      "Promolecule.tla specifies table lookup, linear interpolation, per-atom and per-set density, the kernel's accumulation loop and the stockholder weight as exact "
+      "integer/BigInt arithmetic on table rows read with numpy directly from thakkar_interp.npz; MC_Promolecule model-checks order/motion invariance, additivity, "
+      "positivity and the weight identities over small tables and all atom orders x 24 cube rotations. Real PromoleculeDensity/StockholderWeight objects (element sweeps "
+      "over distances spanning the table, molecules of 1-40 atoms, poses from integer quaternions on a float32-exact grid) are evaluated and every point is checked by "
+      "TLC: atom value inside the interpolation interval, set = sum of atoms, positivity, permutation/motion invariance, weight definition, range and complementarity.",
+      "float32 kernel: relative slack 2e-5 plus an interval for the 1/4096 quantisation of t; points >= 0.35 A from nuclei; compiled kernel used as found.")
+claim("C20", "TLC model checking of the Sobol state machine on the exported direction-number table + trace validation of every generator route",
+      "QuasiRandom.tla builds the direction numbers by the Joe-Kuo recurrence in exact integers and runs the Gray-code generator as a state machine; MC_QuasiRandom "
+      "(data-driven: table exported from the tree) checks stratification at every power of two and the (0,m,2)-net property for dimensions 1..40 + seeded others "
+      "(quick) / all 1..1000 with m <= 12 (thorough, 4.1M states), and enumerates all ordered pairs of calls over a 72-call alphabet for replay. Sessions of shuffled "
+      "single/batch/front-end calls on windows [s, s+k] (s <= 10^6, k <= 256, up to 1000 dims) are validated one TLC step per point: Sobol values must equal the spec's "
+      "integers exactly, all values in [0,1), and an observation register demands the same value for the same (method, seed, dim) by every route and order.",
+      "Korobov values have no exact oracle (range, determinism and route agreement to 2^-60 only); compiled kernels used as found.")
